@@ -260,7 +260,8 @@ pub fn run(prop: &str, tier: &str, seed: u64, out_dir: &Path, threads: usize) ->
     // invisible to it.  Real threads released by a barrier, many rounds per program; every distinct history
     // must be explained by one of the measured sequential outcomes.
     let mut c16_rounds = 0u64;
-    if prop == "C16" && std::env::var("VERIF_CFGFILTER").is_err() {
+    if prop == "C16" && std::env::var("VERIF_CFGFILTER").is_err() && STUCK_PROGRAMS.load(std::sync::atomic::Ordering::SeqCst) == 0 {
+        // (free-running threads have no watchdog: they are not started when the scheduled part already found a deadlock)
         let mut out = TraceOut::new(out_dir, "lin-C16-stress");
         out.per_file = 400;
         let cx = Conc::new("ascii", 1);
@@ -357,7 +358,7 @@ pub fn run(prop: &str, tier: &str, seed: u64, out_dir: &Path, threads: usize) ->
     // C17 "randomised stress on PhysicalFS": free-running OS threads (no scheduler: the races are inside the
     // operating-system calls, where no yield point can be placed), released together, many rounds
     let mut stress_rounds = 0u64;
-    if prop == "C17" && std::env::var("VERIF_CFGFILTER").is_err() {
+    if prop == "C17" && std::env::var("VERIF_CFGFILTER").is_err() && STUCK_PROGRAMS.load(std::sync::atomic::Ordering::SeqCst) == 0 {
         let targets = ["a", "a/b", "a/b/c", "a/b/c/d", "a/e", "a/b/f", "e/f"];
         let mut out = TraceOut::new(out_dir, "lin-C17-stress");
         out.per_file = 400;
